@@ -300,19 +300,58 @@ func IsBranchDispatchPattern(re *syntax.Regexp) bool {
 		return false
 	}
 
-	// Rest must be suitable for branch dispatch
-	// Find the alternation (may be wrapped in capture)
-	for _, sub := range re.Sub[1:] {
-		inner := sub
-		if sub.Op == syntax.OpCapture && len(sub.Sub) == 1 {
-			inner = sub.Sub[0]
-		}
-		if inner.Op == syntax.OpAlternate {
-			// Try to build dispatcher - if it succeeds, pattern is suitable
-			dispatcher := NewBranchDispatcher(sub)
-			return dispatcher != nil
+	// The dispatcher only evaluates the alternation itself: nothing may follow or precede it.
+	if len(re.Sub) != 2 {
+		return false
+	}
+	sub := re.Sub[1]
+	inner := sub
+	if sub.Op == syntax.OpCapture && len(sub.Sub) == 1 {
+		inner = sub.Sub[0]
+	}
+	if inner.Op != syntax.OpAlternate {
+		return false
+	}
+	// Every branch must be something a branchMatcher implements exactly: an ASCII,
+	// case-sensitive literal or a greedy ASCII char_class+.
+	for _, branch := range inner.Sub {
+		if !isExactBranch(branch) {
+			return false
 		}
 	}
+	return NewBranchDispatcher(sub) != nil
+}
 
+// isExactBranch reports whether buildBranchMatcher implements the branch exactly.
+func isExactBranch(re *syntax.Regexp) bool {
+	if re.Op == syntax.OpCapture && len(re.Sub) == 1 {
+		re = re.Sub[0]
+	}
+	switch re.Op {
+	case syntax.OpLiteral:
+		if len(re.Rune) == 0 || re.Flags&syntax.FoldCase != 0 {
+			return false
+		}
+		for _, r := range re.Rune {
+			if r > 127 {
+				return false
+			}
+		}
+		return true
+	case syntax.OpPlus:
+		if re.Flags&syntax.NonGreedy != 0 || len(re.Sub) != 1 || re.Sub[0].Op != syntax.OpCharClass {
+			return false
+		}
+		cc := re.Sub[0]
+		if len(cc.Rune) == 0 {
+			return false
+		}
+		for _, r := range cc.Rune {
+			if r > 127 {
+				return false
+			}
+		}
+		return true
+	}
 	return false
 }
